@@ -102,6 +102,7 @@ Proof.
   apply (king_step_safe b HS d Hd Hadj).
 Qed.
 Print Assumptions king_step.
+Check king_step : stmt_king_step.
 
 (** the hypotheses are satisfiable: the start position after 1.e4 e5 (built from scratch),
     the king step e1-e2 *)
